@@ -70,7 +70,8 @@ impl Arena {
                 Place::EndFlush => self.rw.add(self.size - len),
                 Place::StartFlush => self.rw,
                 Place::Mid(off) | Place::Hostile(off) => {
-                    let base = (self.size / 2) & !63;
+                    // page-aligned: Mid(PAGE - k) makes the data straddle a page boundary k bytes in
+                    let base = (self.size / 2) & !(PAGE - 1);
                     assert!(base + off + len <= self.size);
                     self.rw.add(base + off)
                 }
